@@ -421,7 +421,7 @@ func driveSpec(args []string) error {
 			// sampled tiers always keep the rare edits that only apply at a few pointers (next to an existing $ref)
 			var always, rest []gen.Edit
 			for _, e := range edits {
-				if e.Kind == "ref-xsibling" || e.Kind == "name-dotted" || (e.Kind == "blank" && formatBearing(e.At)) || (e.Kind == "case-flip" && enumerated(e.At)) || ((e.Kind == "rename-empty" || e.Kind == "rename-dotted" || e.Kind == "blank") && lastKeyIs(e.At, "name")) {
+				if e.Kind == "ref-xsibling" || e.Kind == "name-dotted" || e.Kind == "dup-into-array" || (e.Kind == "blank" && formatBearing(e.At)) || (e.Kind == "case-flip" && enumerated(e.At)) || ((e.Kind == "rename-empty" || e.Kind == "rename-dotted" || e.Kind == "blank") && lastKeyIs(e.At, "name")) {
 					always = append(always, e)
 				} else {
 					rest = append(rest, e)
